@@ -105,3 +105,38 @@ theorem skipComment_block (fuel : Nat) (sol : Bool) (body post : List Nat) (hb :
   rw [skipC_clean body post hb _ (by simp)]
 
 end IgVerif.Skip
+
+namespace IgVerif.Skip
+
+theorem word_endif : word "endif" = [101, 110, 100, 105, 102] := by decide
+theorem word_if : word "if" = [105, 102] := by decide
+theorem word_ifdef : word "ifdef" = [105, 102, 100, 101, 102] := by decide
+theorem word_ifndef : word "ifndef" = [105, 102, 110, 100, 101, 102] := by decide
+theorem word_else : word "else" = [101, 108, 115, 101] := by decide
+theorem word_elif : word "elif" = [101, 108, 105, 102] := by decide
+theorem word_elifdef : word "elifdef" = [101, 108, 105, 102, 100, 101, 102] := by decide
+theorem word_elifndef : word "elifndef" = [101, 108, 105, 102, 110, 100, 101, 102] := by decide
+
+/-- **`#endif` at the start of a line ends the group** it belongs to: at nesting level 0 the
+scanner stops there, whatever follows -/
+theorem skipGroup_endif (fuel : Nat) (post : List Nat) :
+    skipGroup (fuel + 1) 0 ⟨some 35, true, [101, 110, 100, 105, 102, 10] ++ post⟩ = (.endif, ⟨some 10, true, post⟩) := by
+  simp [skipGroup, get, solAfter, isSpace, skipWs, skipComment, readWord, isAlnum, skipBlanks, readArgs,
+    word_endif, word_if, word_ifdef, word_ifndef, word_else, word_elif, word_elifdef, word_elifndef]
+
+/-- … and one level down it only closes the inner conditional -/
+theorem skipGroup_endif_nested (fuel level : Nat) (post : List Nat) :
+    skipGroup (fuel + 1) (level + 1) ⟨some 35, true, [101, 110, 100, 105, 102, 10] ++ post⟩ =
+      skipGroup fuel level ⟨some 10, true, post⟩ := by
+  simp [skipGroup, get, solAfter, isSpace, skipWs, skipComment, readWord, isAlnum, skipBlanks, readArgs,
+    word_endif, word_if, word_ifdef, word_ifndef, word_else, word_elif, word_elifdef, word_elifndef]
+
+/-- `#if…` opens a nested conditional: the level goes up and the rest of its line is skipped
+(here: a condition without comments, quotes or backslashes) -/
+theorem skipGroup_if_nested (fuel level : Nat) (post : List Nat) :
+    skipGroup (fuel + 1) level ⟨some 35, true, [105, 102, 32, 49, 10] ++ post⟩ =
+      skipGroup fuel (level + 1) ⟨some 10, true, post⟩ := by
+  simp [skipGroup, get, solAfter, isSpace, skipWs, skipComment, readWord, isAlnum, skipBlanks, readArgs,
+    word_endif, word_if, word_ifdef, word_ifndef, word_else, word_elif, word_elifdef, word_elifndef]
+
+end IgVerif.Skip
